@@ -224,3 +224,41 @@ Example norm_prim_self_overlap_ex :
 Proof.
   intros s. apply (norm_prim_self_overlap s (1, 1, 0)%nat (3 / 2)); [lra|reflexivity].
 Qed.
+
+(* ---- the hypotheses of the block theorems hold for every pair of real shells with positive exponents,
+        and the prefactor KAB is the textbook (pi/p)^{3/2} exp(-mu |A-B|^2) ---- *)
+Lemma two_neq_0_R : fadd RK (f1 RK) (f1 RK) <> f0 RK.
+Proof. change (1 + 1 <> 0). lra. Qed.
+
+Lemma fapx_id_R : forall x : R, fapx RK x = x.
+Proof. reflexivity. Qed.
+
+Lemma exps_ok_pos_R (sa sb : shell R) :
+  (forall x, In x (s_exps sa) -> 0 < x) -> (forall x, In x (s_exps sb) -> 0 < x) -> exps_ok RK sa sb.
+Proof.
+  intros Ha Hb alpha beta Hia Hib. specialize (Ha _ Hia). specialize (Hb _ Hib).
+  unfold psum. change (alpha + beta <> 0). lra.
+Qed.
+
+Theorem KAB_closed_form (sa sb : shell R) (alpha beta : R) : 0 < alpha -> 0 < beta ->
+  KAB RK sa sb alpha beta
+  = pow32 (PI / (alpha + beta))
+    * exp (- (alpha * beta / (alpha + beta))
+           * ((s_x sa - s_x sb) * (s_x sa - s_x sb) + (s_y sa - s_y sb) * (s_y sa - s_y sb)
+              + (s_z sa - s_z sb) * (s_z sa - s_z sb))).
+Proof.
+  intros Ha Hb. unfold KAB, base, hmean, psum.
+  change (fmul RK) with Rmult. change (fdiv RK) with Rdiv. change (fsqrt RK) with sqrt.
+  change (fadd RK) with Rplus. change (fsub RK) with Rminus. change (fopp RK) with Ropp.
+  change (fexp RK) with exp. change (fpi RK) with PI.
+  assert (Hq : 0 <= PI / (alpha + beta)).
+  { apply Rlt_le, Rdiv_lt_0_compat; [apply PI_RGT_0|lra]. }
+  unfold pow32. pose proof (sqrt_sqrt _ Hq) as Es. set (r := sqrt (PI / (alpha + beta))) in *.
+  rewrite <- Es.
+  set (m := alpha * beta / (alpha + beta)).
+  replace (- m * ((s_x sa - s_x sb) * (s_x sa - s_x sb) + (s_y sa - s_y sb) * (s_y sa - s_y sb)
+                  + (s_z sa - s_z sb) * (s_z sa - s_z sb)))
+    with (- (m * ((s_x sa - s_x sb) * (s_x sa - s_x sb))) + - (m * ((s_y sa - s_y sb) * (s_y sa - s_y sb)))
+          + - (m * ((s_z sa - s_z sb) * (s_z sa - s_z sb)))) by ring.
+  rewrite !exp_plus. ring.
+Qed.
